@@ -547,6 +547,12 @@ func runC17(tier, replay string) {
 	run := ev.Start("C17", tier, "exploration")
 	var points []totPoint
 	if replay != "" {
+		var bp biPoint
+		if loadReplay(replay, &bp) == nil && bp.Pt.Fn != "" { // a call of a predeclared function (Builtins.tla)
+			biCheck(run, []biPoint{bp}, "C17")
+			run.Sample(bp.text())
+			run.Finish()
+		}
 		var p totPoint
 		if err := loadReplay(replay, &p); err != nil {
 			run.Infra(err)
@@ -682,6 +688,9 @@ func runC17(tier, replay string) {
 		if atomic.LoadInt32(&deaths) < maxDeaths {
 			run.Infra(fmt.Errorf("%d points skipped without the death limit being reached", skipped))
 		}
+	}
+	if replay == "" { // the calls of predeclared functions of Builtins.tla (valid and invalid): every one ends in ok or a reported error
+		biRun(run, "C17")
 	}
 	run.Sample(map[string]any{"point": points[len(points)/3], "meaning": "operation applied to operand classes in a configuration; outcome must be ok or a reported error"})
 	run.Set("outcomes", counts)
